@@ -240,7 +240,8 @@ func findTrakEnds(traks []*mp4.TrakBox, endTime, endTimescale uint64) (map[uint3
 		trackTimeScale := trak.Mdia.Mdhd.Timescale
 		trackEndTime := endTime
 		if trackTimeScale != uint32(endTimescale) {
-			trackEndTime = endTime * uint64(trackTimeScale) / endTimescale
+			// Round up: a sample starting at the truncated value starts before the (fractional) end time and is kept
+			trackEndTime = (endTime*uint64(trackTimeScale) + endTimescale - 1) / endTimescale
 		}
 		stts := stbl.Stts
 		endSampleNr, err := stts.GetSampleNrAtTime(trackEndTime)
